@@ -394,6 +394,9 @@ class Ev:
 
     def ev_deref(self, e):
         x = self.ev(e[1])
+        if isinstance(x, TypeRef):
+            self.types.get('*' + x.t)
+            return TypeRef('*' + x.t)
         if isinstance(x, Val) and self.types.kind(x.t) == 'ptr':
             return self.load(self.st.ptr_loc(x))
         raise SpecError('deref of non-pointer')
